@@ -11,6 +11,12 @@ registrations saying exclusive=True - in every order (all permutations of the wh
 overloads, per-layer permutations and random interleavings beyond) into fresh plain set-backed Context
 chains through the public register_function, and the Lean model of register_function
 (`Yaql.ResolveCtx.run`) is told the same registrations in the same order.
+(c) held by OTHER CONTEXT SHAPES denoting the same family - a layer as a MultiContext whose members' overload
+sets are unioned (1-3 members, every split, the member list in every order, members with one or with a common
+parent) or as a LinkedContext - under enumeration orders of the members and registration orders (through the
+MultiContext / LinkedContext or directly on the members); the Lean model is told the same construction
+(`Op.multi` / `Op.linked`).  Payloads are plain defs, closures of ONE factory, lambdas or functions of a
+factory-made class (same __module__ / __qualname__): an overload is its definition object, never its name.
 Oracle (real code alone): ONE outcome - overload or error class, evaluation log, bound arguments - per
 family and call across all enumeration AND registration orders; supported by plain set-backed
 Contexts in subprocesses with different PYTHONHASHSEED / allocation patterns / registration orders."""
@@ -552,7 +558,7 @@ def run(env, res):
     drv = env['driver']
     tier = env['tier']
     rng = common.make_rng(env['seed'], 'C06')
-    n_fam = 1100 if tier == "quick" else 6000
+    n_fam = 1100 if tier == "quick" else 4500
     res.rule = ('overload families of 1-3 layers with 2-6 overloads of equal arity over the lattice Base>L,R>D (+ shapes: '
                 'one-below-two-incomparable, lazy/eager mixes, no_kwargs mixes with keyword calls, general smart types, '
                 'tuple/class mixes, keyword-only parameters with/without defaults, */**, defaults the call omits; layers '
@@ -560,7 +566,10 @@ def run(env, res):
                 'satisfy several overloads at once; every call under all permutations of the enumeration order of each '
                 'layer of <= 4 overloads (random beyond) AND under all registration orders (<= 4 overloads: every '
                 'permutation of the whole register_function sequence; beyond: per-layer permutations and random '
-                'interleavings) on fresh set-backed contexts; distinct = distinct (family, calls); '
+                'interleavings) on fresh set-backed contexts AND on another context shape holding the same family (a layer as '
+                'a MultiContext of 1-3 members in every member order / as a LinkedContext; enumeration orders of the members, '
+                'registration orders through the composite or on the members); payloads written as defs / closures of one '
+                'factory / lambdas / class functions; distinct = distinct (family, calls); '
                 'non-trivial = some call has >= 2 type-compatible candidates or an ambiguity')
     hist = {}
     if env['replay']:
@@ -633,7 +642,12 @@ def run(env, res):
 LEVEL_TEXT = ('Lean 4 theorems: perm_invariant - the code-shaped model of runner.call/choose_overload gives the same overload, '
               'bound arguments, evaluation log and error class for every layer-wise permutation of the overloads, in full, '
               'for every class graph, family and call (resolve = resolveSpec, and visible_perm, stage_perm, choose_perm show '
-              'each stage of resolveSpec is a function of the overload set); C06Reg.register_perm_invariant - the model of '
+              'each stage of resolveSpec is a function of the overload set); C06Ctx: in every reachable state each context holds '
+              'a SET of definition objects (run_nodup), the layer of a MultiContext is the union of its members whatever the '
+              'order of the member list (ownLayerL_members_perm), so calls from it and from its children do not depend on '
+              'that order nor on the registration order (resolve_members_perm_invariant, '
+              'resolve_multi_register_perm_invariant; keyed_merge_order_dependent: a merge keyed by payload name would); '
+              'C06Reg.register_perm_invariant - the model of '
               'Context.register_function (sets of definitions, set of exclusive names) leaves the same contexts behind for '
               'every order of the same registrations, hence (family_register_perm, resolve_register_perm_invariant) every '
               'call from every context - plain, multi, linked - resolves the same; exclusive_any - a layer is exclusive '
